@@ -1,6 +1,6 @@
 (* C09 - Rollback restores exactly one group's state and destroys nothing else (storage contract level).
    ONLY statements; proofs in Store/ContractProofs.v.  The contract is tied to both backends by storage_diff. *)
-From MDK Require Import Base.Prelude Base.AMap Store.Contract Store.ContractSpec Store.ContractProofs.
+From MDK Require Import Base.Prelude Base.AMap Store.Contract Store.ContractSpec Store.ContractProofs Store.SqlTie.
 
 (* any operation sequence between snapshot and rollback, any number of groups and snapshots, any nesting *)
 Theorem C09_rollback_exact : forall s g n ts ops,
@@ -52,3 +52,8 @@ Print Assumptions C09_resnapshot_replaces.
 (* non-vacuity: a concrete history with two groups, messages, nested snapshots *)
 Example C09_example : C09_example_statement.
 Proof. exact c09_example. Qed.
+
+(* the SQLite backend's SQL text (ORDER BY clauses, FK cascades, restore statement plan) is the one the contract assumes *)
+Theorem C09_sql_restore_plan_tied : sql_tie_statement.
+Proof. exact sql_tie. Qed.
+Print Assumptions C09_sql_restore_plan_tied.
